@@ -29,7 +29,15 @@ LEVEL_NOTE = ("Partial: proof about a hand-written model, tied to the code by di
               "secondaryIndexGet / newSecondaryIndexListIterator / newSecondaryIndexRangeScanIterator, the functions leaderController.Read/List/RangeScan "
               "call when SecondaryIndexName is set (the goroutine/stream plumbing around them is not driven). Ties among equal secondary keys are "
               "ordered by the ESCAPED primary key bytewise (what the layout gives), not by the key order on primary keys; FLOOR on an exact match returns "
-              "the first entry with that secondary key, LOWER/FLOOR below return the last entry of the greatest smaller secondary key.")
+              "the first entry with that secondary key, LOWER/FLOOR below return the last entry of the greatest smaller secondary key. "
+              "The model treats index name, secondary key and primary key as opaque byte strings put together by the layout function; that the Go code builds "
+              "exactly these bytes on every path (Sprintf formats, url escaping, bounds of list/range-scan, search key and prefix of get) is covered by this leg: "
+              "index names, secondary keys, primary keys and query bounds are drawn from families that collide under any plausible mangling (printf verbs '%', '%%', "
+              "'cpu%', 'a%sb'/'ab', '%s', '%[1]s'; url-escape look-alikes; '__oxia', 'idx'; prefixes of each other; 300-byte names; control bytes), several of a family "
+              "in one DB, judged by the per-index reference (spec verdicts) and compared with the model. Inputs the server accepts but the layout cannot represent "
+              "(name with '/', empty name or secondary key, secondary key with \\x01/\\x00) are generated in 'wild' cases and compared with the model only; what they do on "
+              "the code (List returning a primary key that does not exist, a panic of the list iterator on an empty secondary key or index name) is documented by the "
+              "_refuted lemmas and counted under c15:wild:*.")
 TRUSTED = ["modelled not verified: Pebble v1.1.2 (ordered map, snapshot iterators, SeekGE/SeekLT/Next/Prev), protobuf/vtprotobuf, "
            "url.PathEscape/PathUnescape and the regexp secondaryIdxFormatRegex (transcribed and compared on generated inputs)"]
 ASSUMES = ["index names are non-empty without '/', secondary keys and query keys have every byte > 0x01 (secondary keys non-empty), primary keys are "
@@ -38,14 +46,16 @@ ASSUMES = ["index names are non-empty without '/', secondary keys and query keys
            "session.delete() qualify: c15_user_range_admissible, c15_shadow_range_admissible)",
            "(discharged, not assumed: a sequence put generates a key that holds nothing - C16's generate_key_fresh on the repaired db_sequences.go, "
            "c15_admissible_histories_suffice)"]
-RULE = ("one case = 12-36 write requests against a fresh real DB on 1-4 indexes with neighbouring names (a, a-, a0, b): puts declaring 0-4 (name, skey) pairs "
+RULE = ("one case = 12-36 write requests against a fresh real DB on 1-4 indexes of one name family (40%: a, a-, a0, b; 60%: a family of printf-verb / url-escape / "
+        "layout-word / prefix / long / control-byte names; 12%: a second family beside it; 5%: 'wild' names and secondary keys, model comparison only), queries on the "
+        "whole family incl. unused names: puts declaring 0-4 (name, skey) pairs "
         "(repeated secondary keys, duplicates, '/'-rich and escape-sensitive primary keys), overwrites, conditional puts, same-key batches, deletes, "
         "delete-ranges, bulk ranges of 60/100/101/130 indexed records, sessions with ephemeral indexed records and their closing request, sequence puts "
         "with indexes; 30% of the cases keep the index entries the last keys of the DB (notifications off); after every request 2-6 index queries "
         "(Get x5 / List / RangeScan) with keys at and beyond both edges of the index, on empty and unused indexes too; every response compared with the "
         "model and with the Go reference, the mirror checked on the full dump after every write; distinct by generator sub-seed")
 LEGS = [
-    {"name": "db15", "harness": "db", "model": "db", "n_quick": 1000, "n_thorough": 40000, "args": ["-mode", "c15"],
+    {"name": "db15", "harness": "db", "model": "db", "n_quick": 700, "n_thorough": 40000, "args": ["-mode", "c15"],
      "corpus": "corpus/db15", "timeout": 900, "timeout_thorough": 3000},
 ]
 REGISTERED = True
